@@ -5,7 +5,10 @@ From Coq Require Import ZArith List Bool Arith.
 From QV Require Import Base.Alg Base.Sums Base.Mat Base.Tens Base.Util Model.C04.
 Import ListNotations.
 
-Inductive xdata := XM (A : @mat ZR) | XT (T : @tens ZR).
+(* XM: operators, density matrices, Hamiltonians;  XT: superoperators, relaxation tensors;
+   XML: lists of matrices transformed one by one (DensityMatrixEvolution: one per time; TransitionDipoleMoment: three
+   components);  XTL: time-dependent tensors;  XVL: state-vector evolutions (v -> S^-1 v per time) *)
+Inductive xdata := XM (A : @mat ZR) | XT (T : @tens ZR) | XML (l : list (@mat ZR)) | XTL (l : list (@tens ZR)) | XVL (l : list (@vec ZR)).
 Definition gmat := @mat ZR.
 
 Section Inst.
@@ -17,6 +20,9 @@ Section Inst.
     match x with
     | XM A => XM (tab2 n n (sim n (mT S) S A))
     | XT T => XT (tab4 n (ttrans n (mT S) S T))
+    | XML l => XML (map (fun A => tab2 n n (sim n (mT S) S A)) l)
+    | XTL l => XTL (map (fun T => tab4 n (ttrans n (mT S) S T)) l)
+    | XVL l => XVL (map (fun v => tab n (mv n (mT S) v)) l)
     end.
   Definition x_app (r x : xdata) : xdata :=
     match r, x with
@@ -34,11 +40,16 @@ Section Inst.
       Z.eqb (T a b c d) (nth d (nth c (nth b (nth a l []) []) []) 0%Z)) (seq 0 n)) (seq 0 n)) (seq 0 n)) (seq 0 n).
 
   (* what the harness observed *)
-  Inductive xobs := OM (l : list (list Z)) | OT (l : list (list (list (list Z)))) | ONone.
+  Definition vec_eqb (v : @vec ZR) (l : list Z) : bool := forallb (fun i => Z.eqb (v i) (nth i l 0%Z)) (seq 0 n).
+  Inductive xobs := OM (l : list (list Z)) | OT (l : list (list (list (list Z)))) | ONone
+                  | OML (l : list (list (list Z))) | OTL (l : list (list (list (list (list Z))))) | OVL (l : list (list Z)).
   Definition x_eqb (x : option xdata) (o : xobs) : bool :=
     match x, o with
     | Some (XM A), OM l => mat_eqb A l
     | Some (XT T), OT l => tens_eqb T l
+    | Some (XML ms), OML ls => all2 mat_eqb ms ls
+    | Some (XTL ts), OTL ls => all2 tens_eqb ts ls
+    | Some (XVL vs), OVL ls => all2 vec_eqb vs ls
     | None, ONone => true
     | _, _ => false
     end.
